@@ -15,6 +15,7 @@ def R(checks, shards=1, timeout=600, **kw):
     return d
 
 PROPS = {}
+NOT_APPLICABLE = {}
 
 PROPS["C05"] = {
     "rule": "rapid-generated VAA values (payload 1..5000 biased to 999/1000/1001, 0..255 signatures) and structured byte "
